@@ -36,12 +36,12 @@ def states_for(tier_thorough: bool, seed: int) -> List[Dict[str, Any]]:
     st = []
     if not tier_thorough:
         st.append({"bpx": BPX[0], "bg": REGS_BG[0], "F": 0b01, "fill": 0x101})
-        st.append({"bpx": BPX[1], "bg": REGS_BG[1], "F": 0b10, "fill": 0x002 + (seed & 0x3F)})
+        st.append({"bpx": BPX[1], "bg": REGS_BG[1], "F": 0b10, "fill": 0x002})
         return st
     k = 0
     for bpx in BPX:
         for bg in REGS_BG[:2]:
-            st.append({"bpx": bpx, "bg": bg, "F": k & 3, "fill": (0x100 if k % 2 == 0 else 0) + 1 + k + (seed & 0x3F)})
+            st.append({"bpx": bpx, "bg": bg, "F": k & 3, "fill": (0x100 if k % 2 == 0 else 0) + 1 + k})
             k += 1
     st.append({"bpx": BPX[0], "bg": REGS_BG[2], "F": 3, "fill": 0x109})
     st.append({"bpx": BPX[1], "bg": WRAP_BG, "F": 0, "fill": 0x10A, "wrap": True})
